@@ -2,6 +2,7 @@ package vc
 
 import (
 	"fmt"
+	"go/token"
 	"go/types"
 	"sort"
 
@@ -158,6 +159,11 @@ func (x *Exec) havocLoop(s *State, f *Frame, lp *Loop, phis []*ssa.Phi) {
 	for comp := range mods.Heap {
 		x.havocPrefix(s, comp)
 	}
+	if mods.AllHeap {
+		for k := range s.Heap {
+			x.havocPrefix(s, k)
+		}
+	}
 	for g := range mods.Ghost {
 		if old, ok := s.Ghost[g]; ok {
 			switch o := old.(type) {
@@ -219,6 +225,7 @@ type modSet struct {
 	Ghost     map[string]bool
 	CellAddrs []ssa.Value
 	AllCells  bool
+	AllHeap   bool
 }
 
 // loopMods computes the heap components, ghost variables and cells possibly
@@ -321,25 +328,84 @@ func (x *Exec) addrMods(addr ssa.Value, ms *modSet) {
 	}
 }
 
+// closureOf resolves the function a call through a local variable invokes: the
+// variable (an Alloc, or the captured variable of a closure) is assigned a
+// single MakeClosure / function in its defining function.
+func closureOf(fn *ssa.Function, v ssa.Value) (*ssa.Function, []ssa.Value) {
+	switch t := v.(type) {
+	case *ssa.Function:
+		return t, nil
+	case *ssa.MakeClosure:
+		return t.Fn.(*ssa.Function), t.Bindings
+	case *ssa.UnOp:
+		if t.Op != token.MUL {
+			return nil, nil
+		}
+		switch cell := t.X.(type) {
+		case *ssa.Alloc:
+			var tgt *ssa.Function
+			var binds []ssa.Value
+			n := 0
+			if cell.Referrers() == nil {
+				return nil, nil
+			}
+			for _, r := range *cell.Referrers() {
+				if st, ok := r.(*ssa.Store); ok && st.Addr == cell {
+					n++
+					tgt, binds = closureOf(fn, st.Val)
+				}
+			}
+			if n == 1 {
+				return tgt, binds
+			}
+		case *ssa.FreeVar:
+			// the variable lives in the parent: find the binding
+			par := fn.Parent()
+			if par == nil {
+				return nil, nil
+			}
+			idx := -1
+			for i, fv := range fn.FreeVars {
+				if fv == cell {
+					idx = i
+				}
+			}
+			for _, b := range par.Blocks {
+				for _, in := range b.Instrs {
+					if mc, ok := in.(*ssa.MakeClosure); ok && mc.Fn == fn && idx >= 0 && idx < len(mc.Bindings) {
+						tgt, binds := closureOf(par, &ssa.UnOp{Op: token.MUL, X: mc.Bindings[idx]})
+						if tgt == fn {
+							// the closure itself (recursion): its bindings are its own free variables
+							var own []ssa.Value
+							for _, fv := range fn.FreeVars {
+								own = append(own, fv)
+							}
+							return tgt, own
+						}
+						_ = binds
+						return nil, nil
+					}
+				}
+			}
+		}
+	}
+	return nil, nil
+}
+
 func (x *Exec) callMods(fn *ssa.Function, c *ssa.CallCommon, ms *modSet, depth int, seen map[*ssa.Function]bool) {
 	if c.IsInvoke() {
 		return
 	}
-	var target *ssa.Function
-	switch v := c.Value.(type) {
-	case *ssa.Function:
-		target = v
-	case *ssa.MakeClosure:
-		target = v.Fn.(*ssa.Function)
-	case *ssa.Builtin:
-		if v.Name() == "close" {
+	if b, ok := c.Value.(*ssa.Builtin); ok {
+		if b.Name() == "close" {
 			ms.Heap["chan"] = true
 		}
-		if v.Name() == "delete" {
+		if b.Name() == "delete" {
 			ms.Heap["map."+typeKey(c.Args[0].Type())] = true
 		}
 		return
 	}
+	target, binds := closureOf(fn, c.Value)
 	if target == nil {
 		return
 	}
@@ -353,14 +419,50 @@ func (x *Exec) callMods(fn *ssa.Function, c *ssa.CallCommon, ms *modSet, depth i
 		for _, m := range spec.Modifies {
 			ms.Heap[m] = true
 		}
-		return
 	}
-	if len(target.Blocks) == 0 || seen[target] || depth > 6 {
+	if len(target.Blocks) == 0 || seen[target] {
 		return
 	}
 	if target.Parent() == nil && !x.samePackage(fn, target) {
 		return
 	}
+	if depth > 8 {
+		// give up on precision, not on soundness
+		ms.AllHeap = true
+		ms.AllCells = true
+		return
+	}
 	seen[target] = true
-	x.scanMods(target, target.Blocks, x.Specs[target], ms, depth+1, seen)
+	sub := &modSet{Heap: map[string]bool{}, Ghost: map[string]bool{}}
+	x.scanMods(target, target.Blocks, x.Specs[target], sub, depth+1, seen)
+	for k := range sub.Heap {
+		ms.Heap[k] = true
+	}
+	for k := range sub.Ghost {
+		ms.Ghost[k] = true
+	}
+	ms.AllCells = ms.AllCells || sub.AllCells
+	ms.AllHeap = ms.AllHeap || sub.AllHeap
+	for _, a := range sub.CellAddrs {
+		if fvar, ok := a.(*ssa.FreeVar); ok {
+			// a captured variable of the callee is a variable of the caller
+			mapped := false
+			for i, ff := range target.FreeVars {
+				if ff == fvar && i < len(binds) {
+					ms.CellAddrs = append(ms.CellAddrs, binds[i])
+					mapped = true
+				}
+			}
+			if !mapped {
+				ms.AllCells = true
+			}
+			continue
+		}
+		// locals / parameters of the callee are not visible to the caller
+		switch a.(type) {
+		case *ssa.Alloc, *ssa.Parameter:
+			continue
+		}
+		ms.CellAddrs = append(ms.CellAddrs, a)
+	}
 }
